@@ -83,10 +83,16 @@ def disc(ctx, fams, flavours):
         bad += ['FOUND@bb%d' % bi for bi, k, t in direct_founds if not _edge_dom(K, K.notvis, bi)]
         O('ii', not bad, 'not dominated by not-visited edge: ' + ', '.join(bad) if bad else 'not-visited edge bb%d->bb%d dominates all' % K.notvis, 'CONTAINS')
         # (iii)
-        ok = cfg.dominates(S['INSERT'], S['ADVANCE'])
+        # the mark and the frontier add belong to the same discovery; which of the two statements comes first is immaterial unless
+        # something in between reads the visited set (a descent)
+        ok = cfg.dominates(S['INSERT'], S['ADVANCE']) or (cfg.dominates(S['ADVANCE'], S['INSERT']) and not K.insert_is_test and
+                                                            not any(cfg.dominates(S['ADVANCE'], rb_) and cfg.dominates(rb_, S['INSERT']) for rb_, _ in K.recurse))
         why = []
         if not ok:
             why.append('INSERT does not dominate ADVANCE')
+        if K.recurse and not all(cfg.dominates(S['INSERT'], rb_) for rb_, _ in K.recurse):
+            ok = False
+            why.append('the descent can start before the node is marked')
         # every discovery is marked before the next edge is examined or the function returns without FOUND
         nv_t = K.notvis[1]
         # a discovery = the edge was accepted AND its far endpoint is unvisited; the region starts behind whichever test comes second
@@ -94,11 +100,13 @@ def disc(ctx, fams, flavours):
             nv_t = K.exec_true[1]
         # with `if visited.insert(k)` the test itself marks; the discovery region starts behind its true edge
         start = nv_t if K.insert_is_test else S['INSERT']
-        if not K.insert_is_test and nv_t != S['INSERT'] and _avoid_path(K, nv_t, S['NEXT'], {S['INSERT']}):
+        if not K.insert_is_test and nv_t != S['INSERT'] and _avoid_path(K, nv_t, S['NEXT'], {S['INSERT']} | {bi_ for bi_, _, _ in K.founds}):
             ok = False
             why.append('a path from the not-visited edge back to next() avoids INSERT')
         # every newly marked node enters the frontier unless the search ends
         found_blocks = {bi for bi, k, t in K.founds}
+        if cfg.dominates(S['ADVANCE'], S['INSERT']):
+            start = nv_t      # advance comes first: the discovery region starts at the not-visited edge
         if _avoid_path(K, start, S['NEXT'], {S['ADVANCE']} | found_blocks) and start != S['ADVANCE']:
             ok = False
             why.append('a path from INSERT back to next() avoids ADVANCE (discovered node never expanded)')
@@ -108,9 +116,13 @@ def disc(ctx, fams, flavours):
             why = []
             ok = True
             if K.family != 'Order':
-                if not cfg.dominates(S['RECORD'], S['ADVANCE']):
+                # the edge is recorded in the same discovery as the frontier add (either statement order), and before any descent
+                if not (cfg.dominates(S['RECORD'], S['ADVANCE']) or cfg.dominates(S['ADVANCE'], S['RECORD'])):
                     ok = False
-                    why.append('RECORD does not dominate ADVANCE')
+                    why.append('RECORD and ADVANCE are not on the same path')
+                if K.recurse and not all(cfg.dominates(S['RECORD'], rb_) for rb_, _ in K.recurse):
+                    ok = False
+                    why.append('RECORD does not precede the descent (the edge tree must list a parent edge before its child edges)')
                 for bi, k, t in direct_founds:
                     if not cfg.dominates(S['RECORD'], bi):
                         ok = False
@@ -118,7 +130,7 @@ def disc(ctx, fams, flavours):
             if not cfg.dominates(S['INSERT'], S['RECORD']) and not cfg.dominates(S['CONTAINS'], S['RECORD']):
                 ok = False
                 why.append('RECORD not dominated by the visited test')
-            start = nv_t if K.insert_is_test else S['INSERT']
+            start = nv_t if (K.insert_is_test or cfg.dominates(S['RECORD'], S['INSERT'])) else S['INSERT']
             if _avoid_path(K, start, S['NEXT'], {S['RECORD']}) and start != S['RECORD']:
                 # found paths leave the loop; only paths that continue iterating matter
                 ok = False
@@ -182,8 +194,9 @@ def term(ctx, fams, flavours):
         why = []
         if not _edge_dom(K, K.notvis, S['ADVANCE']):
             why.append('frontier add is not confined to the not-visited branch')
-        if not (cfg.dominates(S['INSERT'], S['ADVANCE'])):
-            why.append('frontier add is not preceded by marking the node visited')
+        # the add and the mark belong to the same discovery (either statement order; a descent in between would be seen by DISC-iii)
+        if not (cfg.dominates(S['INSERT'], S['ADVANCE']) or (cfg.dominates(S['ADVANCE'], S['INSERT']) and not _avoid_path(K, S['ADVANCE'], S['NEXT'], {S['INSERT']}))):
+            why.append('frontier add is not accompanied by marking the node visited')
         if strip_payload(K.insert_key) != key_of(K.advance_term):
             why.append('marks %s but queues %s' % (pretty(K.insert_key), pretty(K.advance_term)))
         if strip_payload(K.contains_key) != strip_payload(K.insert_key):
